@@ -470,6 +470,8 @@ func newRWWorld(c rwCase) *rwWorld {
 	for j := 0; j < c.NT; j++ {
 		w.targets = append(w.targets, &rwTarget{idx: j})
 	}
+	sms := w.allSMs()
+	vfCurrentSMs.Store(&sms)
 	return w
 }
 
